@@ -3239,31 +3239,23 @@ func (p *Posix) DeleteObject(ctx context.Context, input *s3.DeleteObjectInput) (
 				if err != nil {
 					return nil, err
 				}
-				verifhook.At("delete.remove-current", bucket, object)
-				err = os.Remove(objpath)
-				if err != nil {
-					return nil, fmt.Errorf("remove obj version: %w", err)
-				}
-				verifhook.At("delete.removed-current", bucket, object)
-				// the promoted version brings its own attributes
-				err = p.clearStaleAttributes(bucket, object)
-				if err != nil {
-					return nil, fmt.Errorf("clear stale attributes: %w", err)
-				}
-
 				ents, err := os.ReadDir(versionPath)
-				if errors.Is(err, fs.ErrNotExist) {
-					p.removeParents(bucket, object)
-					return &s3.DeleteObjectOutput{
-						DeleteMarker: &isDelMarker,
-						VersionId:    input.VersionId,
-					}, nil
-				}
-				if err != nil {
+				if err != nil && !errors.Is(err, fs.ErrNotExist) {
 					return nil, fmt.Errorf("read version dir: %w", err)
 				}
 
 				if len(ents) == 0 {
+					// no other version: the key goes away
+					verifhook.At("delete.remove-current", bucket, object)
+					err = os.Remove(objpath)
+					if err != nil {
+						return nil, fmt.Errorf("remove obj version: %w", err)
+					}
+					verifhook.At("delete.removed-current", bucket, object)
+					err = p.clearStaleAttributes(bucket, object)
+					if err != nil {
+						return nil, fmt.Errorf("clear stale attributes: %w", err)
+					}
 					p.removeParents(bucket, object)
 					return &s3.DeleteObjectOutput{
 						DeleteMarker: &isDelMarker,
@@ -3319,8 +3311,13 @@ func (p *Posix) DeleteObject(ctx context.Context, input *s3.DeleteObjectInput) (
 					return nil, fmt.Errorf("copy object %w", err)
 				}
 
-				if err := f.link(); err != nil {
-					return nil, fmt.Errorf("link tmp file: %w", err)
+				// The promoted version replaces the deleted one in one step
+				// (the link below renames over it) and brings its own
+				// attributes, stored before it becomes visible: the key
+				// never disappears and never shows data without metadata.
+				err = p.clearStaleAttributes(bucket, object)
+				if err != nil {
+					return nil, fmt.Errorf("clear stale attributes: %w", err)
 				}
 
 				attrs, err := p.meta.ListAttributes(versionPath, srcVersionId)
@@ -3334,10 +3331,14 @@ func (p *Posix) DeleteObject(ctx context.Context, input *s3.DeleteObjectInput) (
 						return nil, fmt.Errorf("load %v attribute", attr)
 					}
 
-					err = p.meta.StoreAttribute(nil, bucket, object, attr, data)
+					err = p.meta.StoreAttribute(f.File(), bucket, object, attr, data)
 					if err != nil {
 						return nil, fmt.Errorf("store %v attribute", attr)
 					}
+				}
+
+				if err := f.link(); err != nil {
+					return nil, fmt.Errorf("link tmp file: %w", err)
 				}
 
 				verifhook.At("delete.remove-promoted", bucket, object)
